@@ -34,6 +34,7 @@ type c18Prog struct {
 	Appends []int   `json:"appends"`          // pointer counts of a small log built with the writer key
 	Reopen  int     `json:"reopen"`           // loader used to reopen the log before appending again (index, mod 4)
 	KeyBuf  int     `json:"keyBuf,omitempty"` // how the writer's codec got its key: 0 as usual; 1 from a buffer the caller wipes afterwards; 2 from a buffer into which the caller then loads the other reader's key
+	KeyKind int     `json:"keyKind,omitempty"` // 0: the library's secretbox keys; 1: shared keys of another make (AES-GCM, 12-byte nonces) behind the same enc.SharedKey interface
 	Wrapped bool    `json:"wrapped,omitempty"` // the writer's codec is used through a struct that embeds it (a delegating wrapper)
 	Derive  bool    `json:"derive,omitempty"` // the readers' codecs (no key / other key) are derived from the writer's codec object with ApplyOptions instead of being built from scratch
 	Opts    int     `json:"opts"`             // CreateEntryOptions of a second write of the entry: bit 0 Pin, bit 1 PreSigned
@@ -52,6 +53,7 @@ func genC18(t *rapid.T) c18Prog {
 		KeyBuf:  rapid.SampledFrom([]int{0, 0, 1, 2}).Draw(t, "keyBuf"),
 		Derive:  rapid.IntRange(0, 2).Draw(t, "deriveReaders") == 0,
 		Wrapped: rapid.IntRange(0, 3).Draw(t, "wrappedCodec") == 0,
+		KeyKind: rapid.SampledFrom([]int{0, 0, 0, 1}).Draw(t, "keyKind"),
 	}
 }
 
@@ -190,14 +192,20 @@ func runC18(tb ev.TB, p c18Prog) ev.Result {
 		rk = (wk + 1) % 6
 	}
 	wio, otherio, noio := world.IO(world.CodecLinkKey, wk), world.IO(world.CodecLinkKey, rk), world.IO(world.CodecDefault, 0)
-	switch p.KeyBuf {
-	case 1:
+	gcm := p.KeyKind == 1
+	if gcm {
+		// shared keys of another make than the library's own (AES-GCM, 12-byte nonces): the codec works with any enc.SharedKey
+		wio, otherio = world.IOWithKey(world.GCMKey(wk)), world.IOWithKey(world.GCMKey(rk))
+	}
+	switch {
+	case gcm:
+	case p.KeyBuf == 1:
 		buf := world.LinkKeyBytes(wk)
 		wio = world.IOFromBuffer(buf)
 		for i := range buf {
 			buf[i] = 0 // key hygiene: the caller does not keep secrets around
 		}
-	case 2:
+	case p.KeyBuf == 2:
 		buf := world.LinkKeyBytes(wk)
 		wio = world.IOFromBuffer(buf)
 		copy(buf, world.LinkKeyBytes(rk)) // the same buffer serves to load the next key
@@ -219,7 +227,11 @@ func runC18(tb ev.TB, p c18Prog) ev.Result {
 		}
 		if ok {
 			noio = base.ApplyOptions(&cbor.Options{})
-			otherio = base.ApplyOptions(&cbor.Options{LinkKey: world.LinkKey(rk)})
+			if gcm {
+				otherio = base.ApplyOptions(&cbor.Options{LinkKey: world.GCMKey(rk)})
+			} else {
+				otherio = base.ApplyOptions(&cbor.Options{LinkKey: world.LinkKey(rk)})
+			}
 		}
 	}
 	provider := world.Identity(p.Entry.Writer).Provider
@@ -230,6 +242,9 @@ func runC18(tb ev.TB, p c18Prog) ev.Result {
 	checkOpaque(tb, raw, all)
 	// same key (a second IO instance built from the same key bytes)
 	same := world.IOFresh(world.CodecLinkKey, wk)
+	if gcm {
+		same = world.IOWithKey(world.GCMKey(wk))
+	}
 	d, err := entry.FromMultihashWithIO(ctx, st.API(), e.GetHash(), provider, same)
 	if err != nil {
 		tb.Fatalf("same-key reader cannot decode: %v", err)
@@ -352,6 +367,9 @@ func runC18(tb ev.TB, p c18Prog) ev.Result {
 			continue
 		}
 		lo := &ipfslog.LogOptions{ID: "L", IO: world.IOFresh(world.CodecLinkKey, wk)}
+		if gcm {
+			lo.IO = world.IOWithKey(world.GCMKey(wk))
+		}
 		var re *ipfslog.IPFSLog
 		var rerr error
 		switch loader {
@@ -410,6 +428,6 @@ func runC18(tb ev.TB, p c18Prog) ev.Result {
 
 func TestC18(t *testing.T) {
 	c := ev.Get("C18")
-	c.Rule = "rapid generates entries as in C08 (0-7 predecessors, 0-7 references incl. CIDv0/raw CIDs, binary payloads) written with one of 6 link keys - in a quarter of the cases through a delegating wrapper that embeds the keyed codec - (and written again with generated create options: pinned and/or hashed before signing), plus a small log (1-8 appends with pointer counts 0..16) written with that key. Oracles: the stored bytes contain no binary or textual form (raw CID bytes, multihash, digest, hex, base32/36/58/64 with and without multibase prefix) of any predecessor/reference or of any earlier block of the log - nor a fragment of one (16 characters of a textual form, 10 bytes of a binary form), be it in the bytes of the block or in what its text fields carry once base64 or hex is taken off - and decode to a node without links; a reader holding the same key (separately constructed codec) recovers identical ordered lists, verifies, merges and loads the whole log; readers with no key or another key - their codecs built from scratch or, in a third of the cases, derived from the writer's codec object with ApplyOptions - get an error or empty lists and load at most the entry itself. Non-trivial = entry with >= 1 predecessor and >= 1 reference; distinct = distinct program."
+	c.Rule = "rapid generates entries as in C08 (0-7 predecessors, 0-7 references incl. CIDv0/raw CIDs, binary payloads) written with one of 6 link keys (the library's secretbox keys or, in a quarter of the cases, keys of another make - AES-GCM with 12-byte nonces - behind the same interface) - in a quarter of the cases through a delegating wrapper that embeds the keyed codec - (and written again with generated create options: pinned and/or hashed before signing), plus a small log (1-8 appends with pointer counts 0..16) written with that key. Oracles: the stored bytes contain no binary or textual form (raw CID bytes, multihash, digest, hex, base32/36/58/64 with and without multibase prefix) of any predecessor/reference or of any earlier block of the log - nor a fragment of one (16 characters of a textual form, 10 bytes of a binary form), be it in the bytes of the block or in what its text fields carry once base64 or hex is taken off - and decode to a node without links; a reader holding the same key (separately constructed codec) recovers identical ordered lists, verifies, merges and loads the whole log; readers with no key or another key - their codecs built from scratch or, in a third of the cases, derived from the writer's codec object with ApplyOptions - get an error or empty lists and load at most the entry itself. Non-trivial = entry with >= 1 predecessor and >= 1 reference; distinct = distinct program."
 	ev.Check(t, "C18", genC18, runC18)
 }
